@@ -21,8 +21,14 @@ def mat(rec):
     """Materialise a recipe into a numpy array (pure function)."""
     out = _mat(rec)
     if _capture is not None and out is not None:
-        _capture.append((rec.get("k"), out))
+        capture(rec.get("k"), out)
     return out
+
+
+def capture(key, arr):
+    """Record a caller-owned array with its bytes *before* it is handed to
+    the code under test."""
+    _capture.append((key, arr, arr.tobytes(), arr.dtype.str, arr.shape))
 
 
 _share_makers = {}
@@ -72,7 +78,8 @@ def _mat(rec):
     if k == "series":
         return G.series(rec["T"], rec["n"], rec["s"])
     if k == "series1":
-        return G.series(rec["T"], 1, rec["s"])[:, 0]
+        x = G.series(rec["T"], 1, rec["s"])[:, 0]
+        return x.astype(rec["dt"]) if rec.get("dt") else x
     if k == "sim":
         S = G.sym_matrix(rec["n"], rec["s"], 0.0, 1.0)
         np.fill_diagonal(S, 1.0)
@@ -546,10 +553,12 @@ class RPSpec(Spec):
 
     def gen_model(self, r):
         T = r.randrange(12, 30)
-        m = {"n": T, "x": {"k": "series1", "T": T, "s": r.randrange(10 ** 9)},
+        m = {"n": T, "x": {"k": "series1", "T": T, "s": r.randrange(10 ** 9),
+                           # sometimes already in the kernels' dtype
+                           "dt": r.choice((None, None, "float32"))},
              "metric": r.choice(("supremum", "euclidean", "manhattan")),
              "dim": r.choice((None, 2, 3)), "tau": 1,
-             "emb": None}
+             "emb": None, "normalize": r.random() < 0.3}
         self._crit(r, m)
         if m["dim"]:
             m["n"] = T - (m["dim"] - 1) * m["tau"]
@@ -573,6 +582,8 @@ class RPSpec(Spec):
 
     def kw(self, m):
         kw = {m["crit"]: m["cv"], "metric": m["metric"], "silence_level": 3}
+        if m.get("normalize"):
+            kw["normalize"] = True
         if m.get("sparse"):
             kw["sparse_rqa"] = True
         if m.get("dim"):
@@ -815,7 +826,7 @@ class SurrSpec(Spec):
     def construct(self, m):
         X = _mat(m["X"]).T.copy()
         if _capture is not None:
-            _capture.append(("surrogates-original-data", X))
+            capture("surrogates-original-data", X)
         obj = self.cls()(X, silence_level=3)
         return obj
 
